@@ -1500,6 +1500,7 @@ class Dir(FileSet):
             rel_path = self.rel_path(src_file.path)
             dest_file = dest_dir.file(rel_path)
             src_file.copy_to(dest_file, skip_if_exists=skip_if_exists)
+        dest_dir.update_hash()
         return dest_dir
 
     def shell_copy_to(self, dest_path: str, as_mount: bool = False) -> str:
@@ -1782,6 +1783,11 @@ class ContentFile(File):
     classes = ContentFileClasses()
 
     def _calc_hash(self) -> str:
+        if not self.filesystem.exists(self.path):
+            # Like File, a missing file has a well-defined hash, so that checking whether a
+            # cached ContentFile is still valid does not fail when the file was deleted.
+            return hash_struct([self.type_basename, self.path, "missing"])
+
         # Use filesystem.open() to avoid triggering a recursive hash update.
         with self.filesystem.open(self.path, mode="rb") as infile:
             content_hash = hash_stream(infile)
